@@ -123,8 +123,8 @@ def check_state(l, model, payload_of, opdesc, kind):
     with instr.budget(4000 + 60 * (n + 2)):
         try:
             api_nodes = list(l.iter_nodes())
-            api_data = list(l)
             try:
+                api_data = list(l)          # list() asks for the length first
                 ln = len(l)
             except ValueError as e:         # a negative __len__
                 raise Violation("length-mismatch", f"after {opdesc}: len(l) raised {e} (the list holds {n} elements)", {})
